@@ -19,6 +19,8 @@ import (
 )
 
 type validationResult struct {
+	Witnesses  int      `json:"path_witnesses_run_natively"`
+	WitAgree   int      `json:"path_witnesses_agree"`
 	Runs       int      `json:"runs"`
 	Discarded  int      `json:"discarded_by_assumptions"`
 	Agree      int      `json:"agree"`
@@ -161,4 +163,33 @@ func trunc(s string, n int) string {
 		return s[:n] + "..."
 	}
 	return s
+}
+
+// validateWitnesses runs solver-produced inputs of completed symbolic paths through the native build: the native run
+// must fail no assertion, must not panic and must reach exactly the labels the engine reached on that path.
+func validateWitnesses(res *validationResult, ws []symgo.PathWitness, h harnessSpec, ts tierSpec, bin string, tmp string) {
+	for n, w := range ws {
+		script := filepath.Join(tmp, fmt.Sprintf("witness-%s-%d.json", h.Func, n))
+		symgo.WriteJSON(script, map[string]interface{}{"draws": w.Draws, "bounds": ts.Bounds})
+		nf, nr, np, na, nm, err := runNativeBinary(bin, h.Pkg, h.Func, script)
+		if err != nil {
+			res.Problems = append(res.Problems, err.Error())
+			continue
+		}
+		res.Witnesses++
+		er, nru := uniqSorted(w.Reached), uniqSorted(nr)
+		sameReached := strings.Join(er, "|") == strings.Join(nru, "|")
+		if h.Threads > 1 || h.MapOrder {
+			sameReached = true
+		}
+		if len(nf) == 0 && !np && !na && len(nm) == 0 && sameReached {
+			res.WitAgree++
+			continue
+		}
+		keep := filepath.Join(verifDir(), "replays", fmt.Sprintf("mismatch-%s-witness-%d.json", h.Func, n))
+		os.MkdirAll(filepath.Dir(keep), 0o755)
+		symgo.WriteJSON(keep, map[string]interface{}{"draws": w.Draws, "bounds": ts.Bounds, "decisions": w.Prefix})
+		res.Mismatches = append(res.Mismatches, fmt.Sprintf("path witness: engine completed the path with reached=%v and no failure | native failed=%v reached=%v panicked=%v assumeFailed=%v mismatch=%v | script=%s",
+			er, uniqSorted(nf), nru, np, na, nm, keep))
+	}
 }
